@@ -252,6 +252,20 @@ pub fn run_c07(a: &Args) {
         }
     }
     reply_failure_cases("C07", &run.rt, &mut st, &mut out);
+    // 4c. transient READ errors (would-block, interrupted, a read time-out) between and inside the frames of keep-alive-rich sessions: every
+    //     keep-alive is still answered exactly once and nothing else is (whatever a failed read leaves in the receive buffer)
+    for compressed in [true, false] {
+        let ka = raw_frame(compressed, 3, 0, &[0]);
+        for i in 0..(if a.thorough() { 400 } else { 60 }) {
+            let n = rng.range(2, 30) as usize;
+            let frames: Vec<Vec<u8>> = (0..n).map(|j| if (i + j) % 3 == 0 { raw_frame(compressed, 3, (j % 250) as u8 + 1, &[0]) } else { ka.clone() }).collect();
+            let fr = Frames::new(compressed, frames); let idx = RepIndex::new(&fr);
+            let style = rng.below(6); let chunks = partition(&mut rng, &fr.stream(), style);
+            let rate = *rng.pick(&[20u64, 50]); let evs = with_errors(&mut rng, chunks, rate, true);
+            run.session("C07", &fr, &idx, false, &evs, &mut st, &mut out, true);
+            st.bump("keep-alive sessions with transient read errors");
+        }
+    }
     // direct check of maybe_pong on typed packets: every kind's default value
     for p in crate::gen::kinds::default_packets() {
         st.evaluations += 1;
